@@ -133,9 +133,46 @@ fn list_history(rng: &mut Rng, t: KT, nops: usize) -> Prog {
     let mut counter = 0i64;
     let mut model: Vec<K> = (0..rng.below(3)).map(|_| fresh(t, &mut counter)).collect();
     let init = if model.is_empty() { format!("l: [{}] = []\n", ty_name(t)) } else { format!("l: [{}] = [{}]\n", ty_name(t), model.iter().map(|k| k.lit()).collect::<Vec<_>>().join(", ")) };
+    let init = format!("{}l2: [{}] = []\n", init, ty_name(t));
     let mut p = Prog { decls: init, steps: Vec::new(), ops: Vec::new(), hazard: None };
+    // `l2` holds lists produced by the library (filter / map): they are fresh lists, so later
+    // mutations of `l` or `l2` must not show through the other
+    let mut model2: Vec<K> = Vec::new();
     for _ in 0..nops {
-        match rng.below(14) {
+        match rng.below(19) {
+            14 | 15 => {
+                // keep the result of a filter (often one that rejects nothing)
+                let (f, kept): (String, Vec<K>) = match (t, rng.below(3)) {
+                    (_, 0) => ("pu x -> x == x end".into(), model.clone()),
+                    (KT::Int, _) => ("pu x -> x > 2 end".into(), model.iter().filter(|k| matches!(k, K::I(i) if *i > 2)).cloned().collect()),
+                    (KT::Str, _) => ("pu x -> x > \"s2\" end".into(), model.iter().filter(|k| matches!(k, K::S(s) if s.as_str() > "s2")).cloned().collect()),
+                    (KT::Pair, _) => ("pu x -> x[0] > 2 end".into(), model.iter().filter(|k| matches!(k, K::P(i, _) if *i > 2)).cloned().collect()),
+                };
+                model2 = kept;
+                p.step("keep-filter-result", format!("l2 = list.filter(l, {})\nprint(l2)", f), vec![show_list(&model2)]);
+            }
+            16 => {
+                let f = match t {
+                    KT::Int => "pu x -> x end",
+                    KT::Str => "pu x -> x end",
+                    KT::Pair => "pu x -> x end",
+                };
+                model2 = model.clone();
+                p.step("keep-map-result", format!("l2 = list.map(l, {})\nprint(l2)", f), vec![show_list(&model2)]);
+            }
+            17 => {
+                // mutate the kept list, observe both
+                let v = fresh(t, &mut counter);
+                model2.push(v.clone());
+                p.step("push-kept+observe-both", format!("list.push(l2, {})\nprint(list.len(l2))\nprint(list.len(l))\nprint(l)", v.lit()), vec![model2.len().to_string(), model.len().to_string(), show_list(&model)]);
+            }
+            18 => {
+                // mutate the original, observe the kept list
+                let v = fresh(t, &mut counter);
+                model.insert(0, v.clone());
+                let r = model2.pop();
+                p.step("prepend-original+pop-kept", format!("list.prepend(l, {})\nprint(list.pop(l2))\nprint(l2)\nprint(l)", v.lit()), vec![maybe_show(r.as_ref()), show_list(&model2), show_list(&model)]);
+            }
             0 | 1 | 2 => {
                 let v = fresh(t, &mut counter);
                 model.push(v.clone());
